@@ -74,6 +74,38 @@ pub fn wl_c03(seed: u64, tier: &str) -> Vec<Vec<Value>> {
                                   "check_order": i % 6 == 0,
                                   "cls": format!("bilin/a={}/b={}/{}/{}", ca, cb, cp, cq)})]);
     }
+    // adjacency on ONE thread: the same pair (P, Q) under every combination of multipliers whose images
+    // share an abscissa (-1), an ordinate (lambda, lambda^2) or both with P resp. Q - whatever a routine
+    // remembers about the previous call (by x, by y, by prefix) is wrong for the next one
+    {
+        let rm1 = w_sub_small(&fr.p, 1);
+        let mut lm = LAMBDA.to_vec();
+        // r - lambda
+        let mut borrow = 0u64;
+        let mut rl = vec![0u64; 4];
+        for i in 0..4 {
+            let (d, b1) = fr.p[i].overflowing_sub(lm[i]);
+            let (d2, b2) = d.overflowing_sub(borrow);
+            rl[i] = d2;
+            borrow = (b1 || b2) as u64;
+        }
+        lm.truncate(4);
+        let muls: Vec<(W, &str)> = vec![(w_add_small(&z, 1), "1"), (rm1.clone(), "-1"), (LAMBDA.to_vec(), "lambda"),
+                                        (LAMBDA2.to_vec(), "lambda^2"), (rl, "-lambda"), (w_add_small(&z, 1), "1")];
+        for (pi, qi) in [(3usize, 3usize), (0, 0)].iter() {
+            let mut ops = vec![];
+            for (k, (a, ca)) in muls.iter().enumerate() {
+                for (l, (b, cb)) in muls.iter().enumerate() {
+                    if !thorough && *pi == 0 && (k + 2 * l) % 3 != 0 {
+                        continue;
+                    }
+                    ops.push(json!({"op": "bilin", "p": aff_to_j(&p1[*pi].0), "q": aff_to_j(&p2[*qi].0), "a": nat(a), "b": nat(b),
+                                    "check_order": false, "cls": format!("adjacent/a={}/b={}", ca, cb)}));
+                }
+            }
+            sessions.push(ops);
+        }
+    }
     sessions
 }
 
@@ -246,6 +278,38 @@ pub fn wl_c12(seed: u64, tier: &str) -> Vec<Vec<Value>> {
     }
     for (f, cls) in direct {
         sessions.push(vec![json!({"op": "finalexp", "f": f, "cls": cls})]);
+    }
+    // products of an element of a proper subfield (Fq, Fq2, Fq4 = Fq2(v w), Fq6) with a unitary element:
+    // their norm down to Fq6 lies in a smaller field without being 1
+    {
+        use ff::Field;
+        use pairing::bls12_381::Fq12;
+        let mut ops = vec![];
+        for i in 0..(if thorough { 6 } else { 2 }) {
+            let m = Fq12::from_j(&rand_f12(&mut r, &fq));
+            let mut u = m;
+            u.conjugate();
+            u.mul_assign(&m.inverse().unwrap());
+            let two = w_add_small(&z, 2);
+            let subs: Vec<(Value, &str)> = vec![
+                (json!([[f2(&two, &z), z2, z2], z6]), "Fq-small"),
+                (json!([[f2(&rand_elem(&mut r, &fq), &z), z2, z2], z6]), "Fq"),
+                (json!([[rand_f2(&mut r, &fq), z2, z2], z6]), "Fq2"),
+                (json!([[rand_f2(&mut r, &fq), z2, z2], [z2, rand_f2(&mut r, &fq), z2]]), "Fq4"),
+                (json!([rand_f6(&mut r, &fq), z6]), "Fq6"),
+            ];
+            for (s, cs) in subs.iter() {
+                let mut f = Fq12::from_j(s);
+                f.mul_assign(&u);
+                let cls = format!("{}-times-unitary", cs);
+                ops.push(json!({"op": "finalexp", "f": f.to_j(), "cheap": true, "cls": cls}));
+                ops.push(json!({"op": "ferel", "f": f.to_j(), "g": rand_f12(&mut r, &fq), "cls": cls}));
+                if i == 0 && (*cs == "Fq2" || *cs == "Fq4" || thorough) {
+                    sessions.push(vec![json!({"op": "finalexp", "f": f.to_j(), "cls": format!("{}-direct", cls)})]);
+                }
+            }
+        }
+        sessions.push(ops);
     }
     // relations between library results: multiplicativity, order r
     for _ in 0..(if thorough { 200 } else { 14 }) {
